@@ -165,9 +165,23 @@ pub mod prio2 {
         static HELPER_SEED: Cell<Option<[u8; 32]>> = const { Cell::new(None) };
     }
 
-    /// Fix the helper seed drawn by `Prio2::shard` on this thread (the only randomness it uses).
+    /// Fix the helper seed drawn by `Prio2::shard` on this thread.
     pub fn set_shard_helper_seed(seed: Option<[u8; 32]>) {
         HELPER_SEED.with(|s| s.set(seed));
+    }
+
+    thread_local! {
+        static PROOF_SEED: Cell<Option<[u8; 32]>> = const { Cell::new(None) };
+    }
+
+    /// Fix the seed from which the Prio2 client draws the random points f(0), g(0) of its proof
+    /// on this thread (with the helper seed, the only randomness `Prio2::shard` uses).
+    pub fn set_shard_proof_seed(seed: Option<[u8; 32]>) {
+        PROOF_SEED.with(|s| s.set(seed));
+    }
+
+    pub(crate) fn shard_proof_seed_override() -> Option<[u8; 32]> {
+        PROOF_SEED.with(|s| s.get())
     }
 
     pub(crate) fn shard_helper_seed_override() -> Option<[u8; 32]> {
